@@ -171,6 +171,30 @@ def run_case(ck, desc):
             p2 *= 0.83
             p2 += 7.0
             _close(ck, f"facade.{nm} (array edited in place between calls)", call(p2), [ref(x) for x in p2], desc, tol)
+        # EVERY public method of the facade, found by introspection: one that is not in the list above
+        # is matched to a stand-alone correlation by the words of its name (water_density ->
+        # density_water_McCain) and called with the object's own parameters by parameter name
+        known = {"water_FVF", "water_viscosity", "gas_FVF", "gas_viscosity", "oil_FVF", "oil_viscosity", "pressure_bubblepoint"}
+        import inspect
+
+        for nm in sorted(n_ for n_, v_ in inspect.getmembers(type(fl), callable) if not n_.startswith("_")):
+            if nm in known:
+                continue
+            ck.count("facade_methods_found_by_introspection_only")
+            words = set(nm.lower().replace("fvf", "b").split("_"))
+            cands = [(m_, f_) for m_ in (oil, water, gas) for f_, v_ in inspect.getmembers(m_, inspect.isfunction) if v_.__module__ == m_.__name__ and words <= set(f_.lower().split("_"))]
+            if len(cands) != 1:
+                ck.inconclusive_because(f"public Fluid method {nm!r} has no unique stand-alone counterpart to be judged against")
+                continue
+            fn_ = getattr(*cands[0])
+            byname = {"temperature": T, "api_gravity": api, "gas_specific_gravity": gg, "solution_gor_initial": gor, "salinity": sal}
+            try:
+                got_ = np.asarray(getattr(fl, nm)(p), dtype=float)
+                want_ = [float(fn_(**{k_: (x if k_ == "pressure" else byname[k_]) for k_ in inspect.signature(fn_).parameters if k_ == "pressure" or k_ in byname})) for x in p]
+            except Exception as e:  # noqa: BLE001
+                ck.inconclusive_because(f"public Fluid method {nm!r} could not be driven: {e!r}")
+                continue
+            _close(ck, f"facade.{nm} (found by introspection)", got_, want_, desc, tol)
         ck.count("facade_objects")
         # the same object after its fields have been re-assigned (a parameter sweep that re-uses one
         # Fluid): every method must follow the object's CURRENT temperature, gravities, GOR, salinity
